@@ -141,7 +141,7 @@ func runWriterCensus(c *Ctx, sp writerSpec) []Obligation {
 		first ast.Node
 	}
 	m := map[string]*agg{}
-	for _, w := range cs.WritersOf(fld) {
+	for _, w := range c.expandSetterWrites(cs.WritersOf(fld), 0) {
 		if w.Kind == "through" && sp.doc == "direct stores only" {
 			continue
 		}
@@ -211,6 +211,9 @@ type callerSpec struct {
 	permitted map[string]string
 	floor     int
 	scope     func(string) bool
+	// forwarders: one-line functions that only hand the target's result on; their own
+	// callers are counted as users of the target (absent forwarders are ignored)
+	forwarders []string
 }
 
 func runCallerCensus(c *Ctx, sp callerSpec) []Obligation {
@@ -223,7 +226,13 @@ func runCallerCensus(c *Ctx, sp callerSpec) []Obligation {
 	if fn == nil {
 		return []Obligation{anchorMissing(sp.rule, sp.target)}
 	}
-	sites, refs := c.CallsTo(sp.scope, fn)
+	targets := []*types.Func{fn}
+	for _, f := range sp.forwarders {
+		if ff := c.LookupPkgFunc(f); ff != nil {
+			targets = append(targets, ff)
+		}
+	}
+	sites, refs := c.CallsTo(sp.scope, targets...)
 	type agg struct {
 		u FuncUnit
 		n int
@@ -289,7 +298,10 @@ func init() {
 		{rule: "CALLERS.decrementMarkTailRec", target: "lisp.decrementMarkTailRec", floor: 2, permitted: map[string]string{
 			"lisp.(*LEnv).funCall":       "unwinds one frame of the mark",
 			"lisp.(*LEnv).specialOpCall": "unwinds one frame of the mark"}},
-		{rule: "CALLERS.extractMarkTailRec", target: "lisp.extractMarkTailRec", floor: 2, permitted: map[string]string{
+		// the census is taken on the accessor that opens a mark (and on its forwarder, while one exists):
+		// inlining the one-line forwarder into its callers moves no use
+		{rule: "CALLERS.extractMarkTailRec", target: "lisp.LVal.tailRecFun", method: true, forwarders: []string{"lisp.extractMarkTailRec"}, floor: 1, permitted: map[string]string{
+			"lisp.extractMarkTailRec":    "the one-line forwarder handing the mark's function and arguments to the call loops",
 			"lisp.(*LEnv).funCall":       "re-enters the call loop",
 			"lisp.(*LEnv).specialOpCall": "re-enters the call loop"}},
 		{rule: "CALLERS.markMacExpand", target: "lisp.markMacExpand", floor: 1, permitted: map[string]string{
